@@ -80,9 +80,11 @@ Definition compatible (d ext:Z) (rex tex:list iv) : bool :=
   | [] => let r := hull rex in existsb (fun e => (fst e - ext <=? fst r) && (snd r <=? snd e + ext)) tex
   | _ => existsb (compatible_at d ext rex tex) (seq 0 (length tex))
   end.
-(* the read spans all introns of T (or T is mono-exonic as the read) *)
-Definition full_length (d:Z) (rex tex:list iv) : bool :=
-  (length rex =? length tex)%nat && compatible_at d 0 rex tex 0.
+(* full-length: the read spans all introns of T; for a mono-exonic T (where that is vacuous) the mono-exonic read covers T's exon up to
+   the documented terminal tolerance `ext` at both ends (tss/tes match) - a fragment of a mono-exonic transcript is not full-length *)
+Definition full_length (d ext:Z) (rex tex:list iv) : bool :=
+  (length rex =? length tex)%nat && compatible_at d 0 rex tex 0 &&
+  ((1 <? length tex)%nat || ((Z.abs (fst (hull rex) - fst (hull tex)) <=? ext) && (Z.abs (snd (hull rex) - snd (hull tex)) <=? ext))).
 
 (* no other annotated intron is strictly closer to a read junction than T's own partner: otherwise the read is as well explained by
    the other isoform and the property does not say which one must be reported *)
@@ -175,7 +177,7 @@ Definition positive_verdict (P:params) (ann:list isoform) (c:rcase) (s:Z) : verd
   let d := p_delta P in let ext := p_minor_ext P in
   if negb (type_consistent (rc_type c)) then Bad 1                                                    (* consistent type *)
   else if negb (forallb (fun id => compatible d ext (rc_exons c) (exons_of ann id)) (rc_reported c)) then Bad 2   (* reported are compatible *)
-  else if source_closest P ann c && full_length d (rc_exons c) (exons_of ann s) && negb (existsb (Z.eqb s) (rc_reported c)) then Bad 3   (* T reported when full-length *)
+  else if source_closest P ann c && full_length d ext (rc_exons c) (exons_of ann s) && negb (existsb (Z.eqb s) (rc_reported c)) then Bad 3   (* T reported when full-length *)
   else if source_closest P ann c && forallb (fun i => (fst i =? s) || negb (compatible d ext (rc_exons c) (snd i))) ann &&
           negb (rmem (rc_type c) RAT_is_unique && list_eqb Z.eqb (rc_reported c) [s]) then Bad 4           (* unique to T when T is the only compatible one *)
   else Positive_ok.
